@@ -21,7 +21,7 @@ C14Ns  == {"unset", "exc", "exccom", "c14n11", "c14n11com", "c14n10", "c14n10com
 
 Base == [sub |-> "keys", kind |-> "authn", encKey |-> "field", signKey |-> "none", alg |-> "unset", c14n |-> "unset",
          signReq |-> TRUE, spIssuer |-> TRUE, forceAuthn |-> FALSE, isPassive |-> FALSE, nameIdFormat |-> TRUE, rac |-> "nil",
-         zone |-> "utc", strclass |-> "plain", variant |-> "plain", hours |-> "0", skip |-> FALSE]
+         zone |-> "utc", strclass |-> "plain", variant |-> "plain", hours |-> "0", skip |-> FALSE, keytype |-> "rsa", via |-> "doc"]
 
 \* the key that must sign: explicit signing key if any (setter over field), else the encryption key (setter over field)
 Signer(in) == IF in.signKey \in {"setter", "both"} THEN "signSetter"
@@ -29,25 +29,28 @@ Signer(in) == IF in.signKey \in {"setter", "both"} THEN "signSetter"
               ELSE IF in.encKey \in {"setter", "both"} THEN "encSetter"
               ELSE IF in.encKey = "field" THEN "encField" ELSE "none"
 EncCert(in) == IF in.encKey \in {"setter", "both"} THEN "encSetter" ELSE IF in.encKey = "field" THEN "encField" ELSE "none"
-\* an ECDSA key can only be supplied through a setter (the deprecated fields are RSA-only)
-AlgOK(in) == in.alg = "ecdsa-sha256" => Signer(in) \in {"signSetter", "encSetter"}
+\* an ECDSA key can only be supplied through a setter (the deprecated fields are RSA-only);
+\* keytype is the type of the key that must sign
+AlgOK(in) == in.keytype = "ec" => Signer(in) \in {"signSetter", "encSetter"}
 
-Keys  == { x \in { [Base EXCEPT !.sub = "keys", !.kind = k, !.encKey = e, !.signKey = s, !.alg = a, !.c14n = c] :
-                     k \in Kinds, e \in KeySrc, s \in KeySrc, a \in Algs, c \in C14Ns } :
+Keys  == { x \in { [Base EXCEPT !.sub = "keys", !.kind = k, !.encKey = e, !.signKey = s, !.alg = a, !.c14n = c, !.keytype = kt] :
+                     k \in Kinds, e \in KeySrc, s \in KeySrc, a \in Algs, c \in C14Ns, kt \in {"rsa", "ec"} } :
              Signer(x) # "none" /\ AlgOK(x) }
 Shape == { [Base EXCEPT !.sub = "shape", !.kind = k, !.spIssuer = i, !.forceAuthn = f, !.isPassive = p, !.nameIdFormat = n,
                         !.rac = r, !.zone = z, !.strclass = sc, !.signReq = sr] :
              k \in Kinds, i \in BOOLEAN, f \in BOOLEAN, p \in BOOLEAN, n \in BOOLEAN, r \in {"nil", "zero", "one", "two"},
-             z \in {"utc", "+0530", "-0800"}, sc \in StrClasses, sr \in BOOLEAN }
+             z \in {"utc", "+0530", "-0800", "dst"}, sc \in StrClasses, sr \in BOOLEAN }
 Meta  == { x \in { [Base EXCEPT !.sub = "meta", !.kind = "metadata", !.variant = v, !.hours = h, !.signReq = sr, !.skip = sk,
                                 !.strclass = sc, !.encKey = e, !.signKey = s, !.zone = z] :
                      v \in {"plain", "slo"}, h \in HoursSet, sr \in BOOLEAN, sk \in BOOLEAN, sc \in StrClasses,
-                     e \in {"field", "setter", "both"}, s \in KeySrc, z \in {"utc", "+0530"} } :
+                     e \in {"field", "setter", "both"}, s \in KeySrc, z \in {"utc", "+0530", "dst"} } :
              (x.variant = "plain" => x.hours = "0") }
 Inputs == Keys \cup Shape \cup Meta
 Cfgs == [x : {0}]
 
-ExpAlg(in)  == IF in.alg = "unset" THEN "rsa-sha256" ELSE in.alg     \* library default: SHA-256 with the key's algorithm
+\* the configured algorithm is used when it fits the key; otherwise the library default: SHA-256 with the key's algorithm
+AlgFits(in) == in.alg # "unset" /\ ((in.alg = "ecdsa-sha256") <=> (in.keytype = "ec"))
+ExpAlg(in)  == IF AlgFits(in) THEN in.alg ELSE IF in.keytype = "ec" THEN "ecdsa-sha256" ELSE "rsa-sha256"
 ExpC14n(in) == IF in.c14n = "unset" THEN "c14n11" ELSE in.c14n   \* goxmldsig default signing canonicaliser: Canonical XML 1.1
 IsSigned(in) == in.kind # "authn" \/ in.signReq
 
